@@ -83,9 +83,43 @@ def alphabet(wd):
         J.append({"name": nm, "args": [p(hdr), "--wrap-static-fns", "--wrap-static-fns-path", p("wrapshared_@HIST@"), "--experimental"],
                   "side_files": [p("wrapshared_@HIST@.c")], "keep_side": True})
     J.append({"name": "merge-wasm-attrs", "args": [p("c11_wasm.h"), "--merge-extern-blocks", "--wasm-import-module-name", "env"]})
+    # second group of twins (kept out of the full product of the quick tier, see histories()): state keyed by something that
+    # stays the same while the answer changes (USR with another asm label, clang flags with another language), state that
+    # survives a FAILED step (formatter), and iteration orders that depend on addresses
+    more = {
+        "c11_asm.h": "#ifdef API_V2\nint compute(int) __asm__(\"compute_v2\");\nextern int level __asm__(\"level_v2\");\n#else\nint compute(int);\nextern int level;\n#endif\n",
+        "c11_sys.h": "#include <stdlib.h>\nstruct UsesSys { size_t n; div_t d; };\n",
+        "c11_sys.hpp": "#include <cstdlib>\nstruct UsesSysCpp { std::size_t n; std::div_t d; };\n",
+        "c11_replaces.h": ("struct Outer { struct { int a; } s1; union { int b; float c; } u1; struct { char d; } s2; enum { E_A, E_B } e1; };\n"
+                           "/** <div rustbindgen replaces=\"Target\"></div> */\nstruct Replacement { int r; };\nstruct Target { long t; };\nstruct UsesTarget { struct Target x; };\n"),
+    }
+    for n, t in more.items():
+        with open(os.path.join(wd, n), "w") as f:
+            f.write(t)
+    J.append({"name": "asm-label-v1", "args": [p("c11_asm.h")]})
+    J.append({"name": "asm-label-v2", "args": [p("c11_asm.h"), "--", "-DAPI_V2"]})
+    J.append({"name": "system-c", "args": [p("c11_sys.h"), "--allowlist-type", "UsesSys"]})
+    J.append({"name": "system-cpp", "args": [p("c11_sys.hpp"), "--allowlist-type", "UsesSysCpp"]})
+    J.append({"name": "rustfmt-missing", "args": [p("c11_c.h")], "ops": [["with_rustfmt", os.path.join(wd, "no-such-rustfmt")]]})
+    J.append({"name": "replaces-anonymous", "args": [p("c11_replaces.h")]})
     for j in J:
         j["callbacks"] = {"log": True}
     return J
+
+
+FIRST_GROUP = 19   # jobs whose full product is enumerated in every tier
+
+
+def length2(nj, tier):
+    """Histories of length 2: the full product in the thorough tier; in the quick tier the full product of the first group, the full
+    product of the second group, and every second-group job before and after three first-group jobs."""
+    if tier == "thorough":
+        return list(itertools.product(range(nj), repeat=2))
+    out = list(itertools.product(range(FIRST_GROUP), repeat=2)) + list(itertools.product(range(FIRST_GROUP, nj), repeat=2))
+    for k in range(FIRST_GROUP, nj):
+        for o in (0, 1, 5):
+            out += [(o, k), (k, o)]
+    return out
 
 
 def slot(job, tag):
@@ -143,9 +177,9 @@ def run(ck, only=None):
     # (a) histories
     if not only or only.get("kind") == "history":
         maxlen = 3 if ck.tier == "thorough" else 2
-        hist = []
-        for n in range(1, maxlen + 1):
-            hist += list(itertools.product(range(len(J)), repeat=n))
+        hist = [(i,) for i in range(len(J))] + length2(len(J), ck.tier)
+        if maxlen >= 3:
+            hist += list(itertools.product(range(FIRST_GROUP), repeat=3))
         if only:
             hist = [tuple(only["seq"])]
         # every history twice: all generations on one thread, and each generation on a thread of its own (length 2 only)
@@ -184,7 +218,7 @@ def run(ck, only=None):
         refj = [dict(id=f"eref|{j['name']}", mode="history", jobs=[slot(j, f"eref{k}")], fresh=True) for k, j in enumerate(J)]
         eres = common.run_jobs(refj, wd, timeout=60, env=env)
         eref = {j["name"]: observe(eres[f"eref|{j['name']}"]["outs"][0], f"eref{k}") for k, j in enumerate(J)}
-        hist2 = list(itertools.product(range(len(J)), repeat=2))
+        hist2 = length2(len(J), ck.tier)
         if only:
             hist2 = [tuple(only["seq"])]
         jobs = [{"id": "ehist|" + ",".join(map(str, h)), "mode": "history", "jobs": [slot(J[i], f"e{k}x{hn}") for k, i in enumerate(h)], "fresh": True, "timeout": 120}
